@@ -924,8 +924,8 @@ class Pregex():
             if self.__pattern.startswith('(?:'):
                 # non-capturing group.
                 pattern = self.__pattern.replace('?:', '', 1)
-            elif _re.match('\(\?[i].+', self.__pattern):
-                # non-capturing group with flag.
+            elif self.__pattern.startswith('(?') and not self.__pattern.startswith('(?P<'):
+                # non-capturing group with flag, lookaround, conditional or backreference.
                 pattern = f'({str(self)})'
             else:
                 # capturing group.
@@ -961,16 +961,19 @@ class Pregex():
         if self.__type == _Type.Empty:
             return self
         elif self.__type == _Type.Group:
-            if self.__pattern.startswith('(?P'):
+            if self.__pattern.startswith('(?P<'):
                 # Remove name from named capturing group.
                 pattern = _re.sub('\(\?P<[^>]*>',
                     f"(?{'i' if is_case_insensitive else ''}:", str(self), count=1)
-            elif self.__pattern.startswith('(?'):
+            elif _re.match(r'\(\?[i]*:', self.__pattern):
                 # Remove any possible flags from non-capturing group.
                 pattern = _re.sub(
                     r'\(\?[i]*:', f"(?{'i' if is_case_insensitive else ''}:",
                     self.__pattern,
                     count=1)
+            elif self.__pattern.startswith('(?'):
+                # Lookaround, conditional or backreference: group it as a whole.
+                pattern = f"(?{'i' if is_case_insensitive else ''}:{self})"
             else:
                 # Else convert capturing group to non-capturing group.
                 pattern = self.__pattern.replace('(',
